@@ -19,7 +19,7 @@ ID = "C17"
 LEVEL = "fault_enumeration"
 TIERS = {
     "quick": {"segments": 4000, "wall": 100, "min_budget": 60},
-    "thorough": {"segments": 200000, "wall": 1500, "min_budget": 300},
+    "thorough": {"segments": 60000, "wall": 1500, "min_budget": 300},
 }
 SEGMENT_TIMEOUT = 300
 SAMPLE_MAXOPS = 14
@@ -30,6 +30,7 @@ RULE = (
     "digest, interleaved with load/lookup/verify/apply; non-trivial+distinct = distinct (document digest, fault kind, "
     "fault position) triples on which verify/apply was judged"
 )
+STATE_MEASURE = "abstract state per judged verify/apply = (document digest, fault kind, depth of the fault position, operation)"
 ASSUMPTIONS = [
     "reference JSON-Patch applier sim/ref/jsonpatch_ref.py implements RFC 6902 for the six operations",
     "two JSON documents are 'the same workspace' iff their key-sorted canonical texts are equal",
